@@ -106,7 +106,7 @@ func VH_C07_merge() {
 	n := 1 + rt.Choose(rt.Param("N", 4))
 	// one mutation from the catalogue at one position of an otherwise produced history;
 	// clock values are arbitrary everywhere
-	mut := rt.Choose(8)
+	mut := rt.Choose(11)
 	vhMut.kind, vhMut.pos = 0, 0
 	if mut >= 1 && mut <= 4 {
 		vhMut.kind, vhMut.pos = mut, rt.Choose(n)
@@ -114,6 +114,11 @@ func VH_C07_merge() {
 	if mut == 7 {
 		vhMut.kind = 5
 	}
+	if mut >= 8 {
+		// operation-level: 8 invalid operation, 9 foreign author, 10 repeated operation id
+		vhMut.kind, vhMut.pos = mut-2, rt.Choose(n)
+	}
+	opPos := vhMut.pos
 	defer func() { vhMut.kind = 0 }()
 	d := vhGenDag(n, false, 2)
 	vhMut.kind = 0
@@ -135,6 +140,12 @@ func VH_C07_merge() {
 		rt.Cover("merge-with-operation")
 	case 4:
 		rt.Cover("undecodable-remote-pack")
+	case 8:
+		rt.Cover("invalid-operation")
+	case 9:
+		rt.Cover("operation-by-another-author")
+	case 10:
+		rt.Cover("repeated-operation-id")
 	}
 	remoteRef := vhRemoteRef
 	localRef := vhLocalRef
@@ -149,6 +160,9 @@ func VH_C07_merge() {
 		rt.Cover("invalid-ref-name")
 	}
 	var before []Operation
+	if mut >= 8 && L >= 0 && d.reach(L)[opPos] {
+		rt.Assume(false) // the local entity is readable by assumption
+	}
 	if L >= 0 {
 		rt.Assume(d.i1Valid(L))
 		inL := d.reach(L)
@@ -185,6 +199,9 @@ func VH_C07_merge() {
 	}
 	if mut == 7 {
 		rt.Assert(res.Status == entity.MergeStatusInvalid, "empty-entity-reported-invalid")
+	}
+	if mut >= 8 && d.reach(R)[opPos] {
+		rt.Assert(res.Status == entity.MergeStatusInvalid, "remote-with-a-bad-operation-reported-invalid")
 	}
 	if res.Status == entity.MergeStatusInvalid {
 		rt.Cover("invalid-reported")
